@@ -274,7 +274,7 @@ def mk_call(site, callee, args, argtys=None):
             if r is None:
                 return mk_agg("adt", "core::option::Option", "None", 0, ())
             return mk_agg("adt", "core::option::Option", "Some", 1, (("0", const(r)),))
-    if d == "core::mem::take" and args:
+    if d in ("core::mem::take", "core::mem::replace") and args:
         # the old value of a place that is not part of an RcBox (those are move-out events)
         if box_part(args[0]) is None:
             return mk_deref(args[0])
